@@ -143,8 +143,6 @@ Proof.
   rewrite forallb_forall in H. apply H in Hx. lia.
 Qed.
 
-Lemma next_app (x rest : bytes) n : length x = n -> next n (x ++ rest) = (x, rest).
-Proof. intros <-. unfold next. rewrite firstn_exact, skipn_exact. reflexivity. Qed.
 
 Lemma rd1_cons b rest : rd 1 (b :: rest) = Ok (b, rest).
 Proof. unfold rd, read. cbn [length Nat.leb firstn skipn]. unfold be. cbn [fold_left]. f_equal. Qed.
